@@ -11,8 +11,8 @@ sys.path.insert(0, '/verif/gen')
 import vlib
 import chanrun
 
-STRATA_QUICK = [('sync2', 900), ('two', 700), ('star', 400), ('multi_srsw', 500), ('multi_mrmw', 500)]
-STRATA_THOROUGH = [('sync2', 20000), ('two', 15000), ('star', 8000), ('multi_srsw', 12000), ('multi_mrmw', 12000)]
+STRATA_QUICK = [('sync2', 3000), ('two', 2000), ('star', 1200), ('multi_srsw', 1500), ('multi_mrmw', 1500)]
+STRATA_THOROUGH = [('sync2', 120000), ('two', 80000), ('star', 40000), ('multi_srsw', 60000), ('multi_mrmw', 60000)]
 
 SAFETY_RULES = ('invented', 'duplicate', 'reorder', 'lost', 'capacity', 'nil-from-open', 'close-order')
 
